@@ -25,6 +25,30 @@ default_path_config = 'local'
 
 #########################################################
 # Config for FindInAll
+_finders_by_config = {}  # type: ignore
+
+
+def _create_finders():
+    from spil_sid_conf import projects, asset_types  # type: ignore
+    from spil import FindInConstants, FindInPaths
+
+    finder_paths = FindInPaths()
+    finder_projects = FindInConstants("project", projects)
+    finder_types = FindInConstants("type", ["a", "s"], parent_source=finder_projects)
+    finder_assettypes = FindInConstants('assettype', asset_types, parent_source=finder_types)
+    finder_asset_states = FindInConstants('state', ["w", "p"], parent_source=finder_paths)
+
+    return {
+        'project': finder_projects,
+        'asset': finder_types,
+        'shot': finder_types,
+        'asset__assettype': finder_assettypes,
+        'asset__state': finder_asset_states,
+        'shot__state': finder_asset_states,
+        'default': finder_paths
+    }
+
+
 def get_finder_for(search_sid, config=None):  # get finder by Sid and optional config
     """
     Configuration used by FindInAll, to define which Finder is used for a given Search Sid.
@@ -43,24 +67,14 @@ def get_finder_for(search_sid, config=None):  # get finder by Sid and optional c
         A Finder instance for this search.
     """
     # type: ignore
-    from spil_sid_conf import projects, asset_types  # type: ignore
-    from spil import FindInConstants, FindInPaths, Finder
+    from spil import Finder
 
-    finder_paths = FindInPaths()
-    finder_projects = FindInConstants("project", projects)
-    finder_types = FindInConstants("type", ["a", "s"], parent_source=finder_projects)
-    finder_assettypes = FindInConstants('assettype', asset_types, parent_source=finder_types)
-    finder_asset_states = FindInConstants('state', ["w", "p"], parent_source=finder_paths)
-
-    finders_by_type = {
-        'project': finder_projects,
-        'asset': finder_types,
-        'shot': finder_types,
-        'asset__assettype': finder_assettypes,
-        'asset__state': finder_asset_states,
-        'shot__state': finder_asset_states,
-        'default': finder_paths
-    }
+    # The Finders are instantiated once per config, so that FindInAll can group
+    # all the typed searches of one Finder into a single call (needed for sorted searches).
+    finders_by_type = _finders_by_config.get(config)
+    if finders_by_type is None:
+        finders_by_type = _create_finders()
+        _finders_by_config[config] = finders_by_type
 
     finder: Finder = finders_by_type.get(search_sid.type, {}) or finders_by_type.get('default', {})
     if finder:
